@@ -327,6 +327,38 @@ example : Between 2 5 (⟨2, 0, 0, 3, 0, 5⟩ : M6 ℝ) := by
   simp only [vtMv, normSq, mul_eq, add_eq]
   constructor <;> nlinarith [mul_self_nonneg x.x, mul_self_nonneg x.y, mul_self_nonneg x.z]
 
+theorem between_diag235 : Between 2 5 (⟨2, 0, 0, 3, 0, 5⟩ : M6 ℝ) := by
+  intro x
+  simp only [vtMv, normSq, mul_eq, add_eq]
+  constructor <;> nlinarith [mul_self_nonneg x.x, mul_self_nonneg x.y, mul_self_nonneg x.z]
+
+/-- `interp_spectrum` is not vacuous: four donors carrying diag(2,3,5), weights (1/2,1/4,1/8,1/8), bounds [2,5] —
+    every hypothesis (exact decompositions of the four `log_m` calls and of the final `exp_m`) holds -/
+example : ∃ out, logEuclidInterp 4 (⟨1 / 2, 1 / 4, 1 / 8, 1 / 8⟩ : B4 ℝ)
+    ⟨Real.log 2, 0, 0, Real.log 3, 0, Real.log 5⟩ ⟨Real.log 2, 0, 0, Real.log 3, 0, Real.log 5⟩
+    ⟨Real.log 2, 0, 0, Real.log 3, 0, Real.log 5⟩ ⟨Real.log 2, 0, 0, Real.log 3, 0, Real.log 5⟩ = .ok out ∧
+    Between 2 5 out := by
+  have hw : (1 / 2 : ℝ) + 1 / 4 + 1 / 8 + 1 / 8 = 1 := by norm_num
+  have hu := logCombine_uniform (⟨1 / 2, 1 / 4, 1 / 8, 1 / 8⟩ : B4 ℝ) ⟨Real.log 2, 0, 0, Real.log 3, 0, Real.log 5⟩ hw
+  have hout : logEuclidInterp 4 (⟨1 / 2, 1 / 4, 1 / 8, 1 / 8⟩ : B4 ℝ)
+      ⟨Real.log 2, 0, 0, Real.log 3, 0, Real.log 5⟩ ⟨Real.log 2, 0, 0, Real.log 3, 0, Real.log 5⟩
+      ⟨Real.log 2, 0, 0, Real.log 3, 0, Real.log 5⟩ ⟨Real.log 2, 0, 0, Real.log 3, 0, Real.log 5⟩ =
+      .ok ⟨2, 0, 0, 3, 0, 5⟩ := by
+    exact logEuclid_uniform ⟨2, 0, 0, 3, 0, 5⟩ _ _ _ _ hw
+      (C16.diagM_diagonal 2 3 5).1 (C16.diagM_diagonal 2 3 5).2 ⟨by norm_num, by norm_num, by norm_num⟩
+      (C16.logM_diag 2 3 5)
+      (C16.diagM_diagonal (Real.log 2) (Real.log 3) (Real.log 5)).1
+      (C16.diagM_diagonal (Real.log 2) (Real.log 3) (Real.log 5)).2
+  refine ⟨_, hout, ?_⟩
+  have hD := C16.diagM_diagonal 2 3 5
+  have hL := C16.diagM_diagonal (Real.log 2) (Real.log 3) (Real.log 5)
+  exact interp_spectrum (⟨1 / 2, 1 / 4, 1 / 8, 1 / 8⟩ : B4 ℝ) ⟨2, 0, 0, 3, 0, 5⟩ ⟨2, 0, 0, 3, 0, 5⟩ ⟨2, 0, 0, 3, 0, 5⟩
+    ⟨2, 0, 0, 3, 0, 5⟩ _ _ _ _ _ _ _ _ _ _ 2 5 (by norm_num) (by norm_num) (by norm_num) (by norm_num) (by norm_num)
+    (by norm_num) hw
+    hD.1 hD.2 between_diag235 (C16.logM_diag 2 3 5) hD.1 hD.2 between_diag235 (C16.logM_diag 2 3 5)
+    hD.1 hD.2 between_diag235 (C16.logM_diag 2 3 5) hD.1 hD.2 between_diag235 (C16.logM_diag 2 3 5)
+    (by rw [hu]; exact hL.1) (by rw [hu]; exact hL.2) hout
+
 /-- `interp_quadratic_form_range` at a concrete point -/
 example (v : Vec3 ℝ) :
     vtMv (logCombine 4 (⟨1 / 2, 1 / 2, 0, 0⟩ : B4 ℝ) ⟨1, 0, 0, 1, 0, 1⟩ ⟨3, 0, 0, 3, 0, 3⟩ ⟨0, 0, 0, 0, 0, 0⟩
